@@ -122,6 +122,9 @@ def proof_gate(thorough=False):
 
 
 # ---------------------------------------------------------------------------------------------- driver
+DRIVER_TIMEOUT = int(os.environ.get('VERIF_DRIVER_TIMEOUT', '1800'))
+
+
 def run_driver(lines):
     if not os.path.exists(DRIVER):
         infra('driver binary missing (run setup_cmd)')
@@ -146,7 +149,13 @@ def run_driver(lines):
     outs = [None] * nchunks
 
     def feed(i):
-        outs[i] = procs[i].communicate('\n'.join(chunks[i]) + '\n')
+        try:
+            # (the driver follows a few thousand labels per second: a chunk that takes this long is stuck)
+            outs[i] = procs[i].communicate('\n'.join(chunks[i]) + '\n', timeout=DRIVER_TIMEOUT)
+        except subprocess.TimeoutExpired:
+            procs[i].kill()
+            outs[i] = procs[i].communicate()
+            outs[i] = (outs[i][0], 'TIMEOUT after %d s' % DRIVER_TIMEOUT)
     ths = [threading.Thread(target=feed, args=(i,)) for i in range(nchunks)]
     for t in ths:
         t.start()
